@@ -33,6 +33,7 @@ def check(run: Run) -> None:
     run.rule("C05.R3", "inline only plain positional calls; arguments resolved before the parameter map is pushed; map popped; innermost-first lookup; else call intact")
     run.rule("C05.R4", "rewrite_func_as_lambda: exactly one non-docstring statement, a Return, else ValueError; Lambda(f.args, ret.value)")
     run.rule("C05.R5", "each inlined helper is a fresh parse (no shared cached AST)")
+    run.rule("C05.R12", "the inlining guard is not stronger than designed: unused default values do not keep a fully bound helper call from being inlined (needed by C14)")
     run.rule("C05.R10", "an inlined helper's own free variables are captured from its own closure and module (D43); helpers already being inlined are left by name")
     ctx = TermCtx(m, max_depth=2, opaque={"_parse_source_for_lambda", "as_literal"}, identity={"lambda_unwrap"})
     cls = m.find_class("_resolve_called_lambdas", in_module="func_adl.util_ast")
@@ -378,6 +379,11 @@ def _guard(run: Run, fa, vc: FuncInfo, ret_stmt, nodep) -> None:
     }
     for key, msg in need.items():
         run.check(_has_evidence(atoms, key), "C05.R3", vc, ret_stmt, f"inlined only if {msg}", f"a helper call is inlined without checking that {msg}: a parameter is left unbound or bound to the wrong argument", "return the call intact otherwise")
+    # the converse: a call that binds every parameter positionally *is* inlined - default values that are not used are no
+    # obstacle. A helper left as a called lambda keeps whatever it packages (tuples, dictionaries) in the query: the
+    # simplifier does not reduce a called lambda that declares defaults either.
+    extra = [ast.unparse(a)[:60] for a, pol in atoms if any(isinstance(x, ast.Attribute) and x.attr in ("defaults", "kw_defaults") for x in ast.walk(a))]
+    run.check(not extra, "C05.R12", vc, ret_stmt, "a call binding every parameter is inlined whether or not the helper declares defaults", f"a helper that declares default values is never inlined ({extra[0] if extra else ''} is part of the guard), even when the call gives every argument: def pack(e, min_pt=30.0): return (..); pack(e, 40.0) stays a called lambda - nobody reduces it later, and the tuple it builds, with the projections t[0] / t[2] of the next stage, survives in the simplified query", "guard on the call shape and the parameter kinds only", key="helpers with defaults never inlined")
 
 
 def _params_without_annotations(at, fargs) -> bool:
